@@ -102,6 +102,28 @@ def cases(rng, tier, stats):
            G.call("_টাইপ"), G.call("_টাইপ", G.num(1), G.num(2))]
     for b in bad:
         out.append(prog_case("bad-arguments", [("print", G.s("আগে")), ("print", b), ("print", G.s("পরে"))]))
+    # history: split results created after a collection has left free slots (a result list goes through the same allocator
+    # as every other list): two results held at once, a list literal after them, results joined back
+    nh = 0
+    for garbage in ((400,) if tier != "thorough" else (260, 340, 400, 700)):
+        for keep in (0, 1, 3):
+            prog = [("decl", "গ", G.num(0)), ("decl", "রাখা", G.lst())]
+            prog.append(("loop", [("if", [(G.bin_(">=", G.var("গ"), G.num(garbage)), [("break",)])], None),
+                                  ("decl", "ফেলা", G.lst(G.var("গ"), G.num(1), G.num(2))),
+                                  ("if", [(G.bin_("<", G.var("গ"), G.num(keep)), [("expr", G.call("_লিস্ট-পুশ", G.var("রাখা"), G.var("ফেলা")))])], None),
+                                  ("assign", "গ", [], G.bin_("+", G.var("গ"), G.num(1)))]))
+            prog += [("decl", "রং", G.call("_স্ট্রিং-স্প্লিট", G.s("লাল,নীল,সবুজ"), G.s(","))),
+                     ("decl", "দিন", G.call("_স্ট্রিং-স্প্লিট", G.s("শনি রবি"), G.s(" "))),
+                     ("decl", "সংখ্যা", G.lst(G.num(1), G.num(2), G.num(3))),
+                     ("decl", "অক্ষর", G.call("_স্ট্রিং-স্প্লিট", G.s("কখগ"), G.s(""))),
+                     ("print", G.var("রং")), ("print", G.var("দিন")), ("print", G.var("সংখ্যা")), ("print", G.var("অক্ষর")), ("print", G.var("রাখা")),
+                     ("print", G.call("_লিস্ট-লেন", G.var("রং"))), ("print", G.call("_স্ট্রিং-জয়েন", G.var("রং"), G.s(","))),
+                     ("print", G.bin_("==", G.call("_স্ট্রিং-জয়েন", G.var("দিন"), G.s(" ")), G.s("শনি রবি"))),
+                     ("print", G.call("_টাইপ", G.idx(G.var("রং"), G.num(0)))),
+                     ("expr", G.call("_লিস্ট-পুশ", G.var("দিন"), G.s("সোম"))), ("print", G.var("রং")), ("print", G.var("দিন")), ("print", G.var("সংখ্যা"))]
+            out.append(prog_case("split-after-collection", prog, info={"garbage": garbage, "kept": keep}))
+            nh += 1
+    stats["split_after_collection"] = nh
     # every argument tuple of length 0..3 over one value of each kind: exactly the documented shapes are accepted
     pool = [G.s("a,b"), G.s(","), G.num(2), G.lst(G.s("a"), G.s("b")), G.b(True), G.rec((G.s("k"), G.num(1)))]
     nt = 0
